@@ -303,10 +303,18 @@ func (k *Sink) Write(p []byte) (int, error) {
 	if fail {
 		m := 0
 		if len(p) > 0 {
+			// any count 0..len(p) may accompany the error, including the full count (a layered
+			// writer that took the bytes and then failed on its own flush)
 			if k.AcceptEighths >= 0 {
-				m = len(p) * (k.AcceptEighths % 8) / 8
+				m = len(p) * (k.AcceptEighths % 9) / 8
 			} else {
-				m = k.st.Choose(len(p)) // strict prefix
+				m = k.st.Choose(len(p) + 1)
+				if k.st.Chance(1, 4) {
+					m = len(p)
+				}
+			}
+			if m == len(p) {
+				c.Count("probe.sink_error_with_full_count")
 			}
 		}
 		k.Got = append(k.Got, p[:m]...)
